@@ -189,6 +189,30 @@ def _nodes(c):
     return sum(1 + _nodes(b) for p, b in c.chain) + (0 if c.orelse is None else _nodes(c.orelse))
 
 
+def combined_deep_programs():
+    """chains and nesting COMBINED inside the explored bounds (nesting <= 12, chains <= 60)"""
+    out = []
+
+    def chain_of(n, var, last_body, orelse):
+        links = [(Cmp(Id(var), "==", Lit(i)), R()) for i in range(n - 1)]
+        links.append((Cmp(Id(var), "==", Lit(n - 1)), last_body))
+        return If(tuple(links), orelse)
+    # a 60-link chain inside the last link of a 60-link chain
+    inner = chain_of(60, "w", R(), R())
+    out.append(prog(chain_of(60, "v", inner, None)))
+    # three nested chains of 40
+    c = R()
+    for d in range(3):
+        c = chain_of(40, "v%d" % d, c, R() if d % 2 else None)
+    out.append(prog(c))
+    # twelve nested chains of 10
+    c = R()
+    for d in range(12):
+        c = chain_of(10, "n%d" % d, c, None if d % 3 else R())
+    out.append(prog(c))
+    return out
+
+
 def deep_programs(nesting=12, chain=60):
     # nesting: if f1 { if f2 { ... return } }   with else at alternating levels
     body = R()
@@ -298,4 +322,5 @@ def routing_family(tier, seed):
         fam += [("skeleton", p) for p in skeleton_programs(2, 2, rng, limit=120)]
         fam += [("mixed", p) for p in mixed_operator_programs(rng, 100)]
     fam += [("deep", p) for p in deep_programs()]
+    fam += [("deep-combined", p) for p in combined_deep_programs()]
     return fam
